@@ -86,10 +86,43 @@ def ensure_pristine():
     pristine.get()
 
 
+class ScenarioTimeout(BaseException):
+    """raised by SIGALRM inside a scenario; BaseException so that no `except Exception` can swallow it"""
+
+
+SCENARIO_WALL = {"quick": 120, "thorough": 1200}
+_TIER = {"tier": "quick"}
+
+
 def execute_scenario(mod, scenario, scratch_root):
+    """Run one scenario.  A scenario that does not return within a generous wall-clock bound (normal ones take
+    milliseconds to a few seconds) is reported as a termination violation: the simulated system hung (an endless
+    loop in the code under test), which is different from a harness failure."""
+    import signal
+    import threading
     scratch = worker_scratch(scratch_root)
     clean_dir(scratch)
-    return mod.execute(scenario, scratch)
+    limit = getattr(mod, "SCENARIO_WALL", SCENARIO_WALL)[_TIER["tier"]]
+    use_alarm = threading.current_thread() is threading.main_thread()
+
+    def on_alarm(signum, frame):
+        raise ScenarioTimeout()
+    if use_alarm:
+        old = signal.signal(signal.SIGALRM, on_alarm)
+        signal.alarm(limit)
+    try:
+        return mod.execute(scenario, scratch)
+    except ScenarioTimeout:
+        tb = traceback.format_exc().strip().split("\n")
+        where = [l.strip() for l in tb if l.strip().startswith("File ")][-4:]
+        return {"violations": [{"oracle": "termination", "klass": "wall_timeout", "sig": None,
+                                "detail": {"seconds": limit, "innermost_frames": where}}],
+                "probes": {"scenario_wall_timeout": 1}, "faults": {}, "sim_seconds": 0.0, "trace_shape": None,
+                "log_digest": "timeout", "verdict_digest": "timeout", "out_digest": None, "nontrivial": False, "runs": 0}
+    finally:
+        if use_alarm:
+            signal.alarm(0)
+            signal.signal(signal.SIGALRM, old)
 
 
 def _summarise(index, scenario, out, keep_scenario=False):
@@ -176,6 +209,8 @@ def _chunk_task(args):
     except Exception:
         part["harness_errors"] = [{"index": i, "harness_error": traceback.format_exc()} for i in indices]
         return part
+    _TIER["tier"] = tier
+    per_timeout = max(per_timeout, getattr(mod, "SCENARIO_WALL", SCENARIO_WALL)[tier] + 120)
     for i in indices:
         faulthandler.dump_traceback_later(per_timeout, exit=True)
         try:
@@ -212,10 +247,21 @@ def run_indices(pid, tier, base, indices, workers, scratch_root, keep=(), chunk=
             for f in cf.as_completed(futs, timeout=wall_budget):
                 batch.absorb(f.result())
                 done += 1
+                if sum(1 for s in batch.violating for v in s["violations"] if v["klass"] == "wall_timeout") >= 3:
+                    # the simulated system hangs again and again: enough evidence, do not sit out the rest
+                    for g in futs:
+                        g.cancel()
+                    for proc in list(getattr(ex, "_processes", {}).values()):
+                        proc.terminate()
+                    break
         except cf.TimeoutError:
             for f in futs:
                 f.cancel()
-            raise HarnessError("wall budget of %ss exceeded after %d/%d chunks" % (wall_budget, done, len(chunks)))
+            if any(v["klass"] == "wall_timeout" for s in batch.violating for v in s["violations"]):
+                for proc in list(getattr(ex, "_processes", {}).values()):
+                    proc.terminate()
+            else:
+                raise HarnessError("wall budget of %ss exceeded after %d/%d chunks" % (wall_budget, done, len(chunks)))
         except cf.process.BrokenProcessPool:
             raise HarnessError("a worker process died (see stderr for a faulthandler dump)")
     batch.violating.sort(key=lambda s: repr(s["index"]))
@@ -429,6 +475,7 @@ def run_check(pid, tier, base, workers=None, count=None, selftest=True):
     t0 = time.time()
     mod = load_prop(pid)
     ensure_pristine()
+    _TIER["tier"] = tier
     workers = workers or min(16, os.cpu_count() or 4)
     n = count if count is not None else mod.COUNTS[tier]
     scratch_root = tempfile.mkdtemp(prefix="dsim-%s-" % pid)
@@ -490,7 +537,10 @@ def run_check(pid, tier, base, workers=None, count=None, selftest=True):
                     continue
                 seen.add(cls)
                 scen = s["scenario"]
-                small, tries = minimise(mod, scen, cls, scratch_root, budget=300, deadline=deadline)
+                if v["klass"] == "wall_timeout":
+                    small, tries = scen, 0        # every re-execution would take the whole bound again
+                else:
+                    small, tries = minimise(mod, scen, cls, scratch_root, budget=300, deadline=deadline)
                 out = execute_scenario(mod, small, scratch_root)
                 vv = [x for x in out["violations"] if (x["oracle"], x["klass"], x.get("sig")) == cls]
                 vv = vv[0] if vv else v
@@ -519,7 +569,7 @@ def _extra_task(args):
     ensure_pristine()
     part = {"agg": Agg(), "detail": {}, "violating": [], "harness_errors": []}
     for (tag, scenario) in items:
-        faulthandler.dump_traceback_later(600, exit=True)
+        faulthandler.dump_traceback_later(getattr(mod, "SCENARIO_WALL", SCENARIO_WALL)[_TIER["tier"]] + 120, exit=True)
         try:
             out = execute_scenario(mod, scenario, scratch_root)
             s = _summarise(tag, scenario, out, keep_scenario=(tag in keep_tags))
